@@ -2,6 +2,7 @@ import GB.C19.Proofs
 import GB.C19.Join
 import GB.C19.QueryProofs
 import GB.C19.WireProofs
+import GB.C19.Unfold
 import GB.Generated.Facts
 /-
   C19 — property theorems.  `dispatch` is `WebBridge.ServeHTTP` (bridge.go, after fix D18),
@@ -541,3 +542,44 @@ set_option maxRecDepth 1000000 in
 /-- `Connection : upgrade` (SP before the colon) ⇒ 400, no bridge -/
 theorem C19_wire_example_name_space :
     dispatchRaw [72,111,115,116,58,32,97,13,10,67,111,110,110,101,99,116,105,111,110,32,58,32,117,112,103,114,97,100,101,13,10,85,112,103,114,97,100,101,58,32,119,101,98,115,111,99,107,101,116,13,10,13,10] = none := by decide
+
+/-! ### Round 7 (w7c19): obs-fold — a FOLDED block and its UNFOLDED rewrite (`GB/C19/Unfold.lean`)
+
+  Full statement (NOT proved in general; the parser-level half — `serverPairs hs = some ps → ∃ ps', serverPairs (unfold hs) = some ps' ∧
+  TrailLines ps ps'` — and the Content-Type clause are missing):
+      theorem C19_dispatch_unfold (hs : Bytes) (h : GB.C07.serverPairs hs ≠ none) :
+          dispatchWire hs = dispatchWire (unfold hs) ∧ dispatchRaw hs = dispatchRaw (unfold hs)
+-/
+
+/-- PARTIAL (dispatch half of `C19_dispatch_unfold`): lines with the same names whose values differ only by TRAILING OWS — what the
+    unfolded rewrite of a folded block with all-blank trailing continuation lines gives (textproto trims the single line, the joined
+    logical line keeps the SP) — have the same token lists, hence the same Connection / Upgrade / Sec-WebSocket-Protocol tests, and the
+    same bridge whenever the Content-Type prefix test agrees -/
+theorem C19_dispatch_unfold_partial (ps ps' : List (Bytes × Bytes)) (h : TrailLines ps ps') :
+    (∀ K t, wireHasToken K ps t = wireHasToken K ps' t) ∧
+    (isGRPCWebContentType (first (wireLinesOf kContentType ps)) = isGRPCWebContentType (first (wireLinesOf kContentType ps')) →
+      wireDispatch ps = wireDispatch ps') := by
+  refine ⟨fun K t => wireHasToken_trail K ps ps' t h, fun hct => ?_⟩
+  unfold wireDispatch
+  simp only [wireHasToken_trail _ ps ps' _ h, hct]
+
+/-- element level: `strings.Split(v, ",")` + `strings.Trim(e, " \t")` do not see trailing OWS of the line -/
+theorem C19_unfold_elems_trailing_ows (v w : Bytes) (h : w.all isOWS = true) :
+    (splitComma (v ++ w)).map trimOWS = (splitComma v).map trimOWS := splitComma_trail v w h
+
+set_option maxRecDepth 1000000 in
+/-- `Connection: keep-alive,\r\n Upgrade\r\nUpgrade: websocket\r\n \t \r\n` (all-blank trailing continuation line): `unfold` gives
+    `Connection: keep-alive, Upgrade\r\nUpgrade: websocket \r\n`, both blocks ⇒ WebSocket, model and spec -/
+theorem C19_unfold_example_blank_trailing :
+    unfold [72,111,115,116,58,32,97,13,10,67,111,110,110,101,99,116,105,111,110,58,32,107,101,101,112,45,97,108,105,118,101,44,13,10,32,85,112,103,114,97,100,101,13,10,85,112,103,114,97,100,101,58,32,119,101,98,115,111,99,107,101,116,13,10,32,9,32,13,10,13,10] = [72,111,115,116,58,32,97,13,10,67,111,110,110,101,99,116,105,111,110,58,32,107,101,101,112,45,97,108,105,118,101,44,32,85,112,103,114,97,100,101,13,10,85,112,103,114,97,100,101,58,32,119,101,98,115,111,99,107,101,116,32,13,10,13,10] ∧
+    dispatchWire [72,111,115,116,58,32,97,13,10,67,111,110,110,101,99,116,105,111,110,58,32,107,101,101,112,45,97,108,105,118,101,44,13,10,32,85,112,103,114,97,100,101,13,10,85,112,103,114,97,100,101,58,32,119,101,98,115,111,99,107,101,116,13,10,32,9,32,13,10,13,10] = some .ws ∧ dispatchWire (unfold [72,111,115,116,58,32,97,13,10,67,111,110,110,101,99,116,105,111,110,58,32,107,101,101,112,45,97,108,105,118,101,44,13,10,32,85,112,103,114,97,100,101,13,10,85,112,103,114,97,100,101,58,32,119,101,98,115,111,99,107,101,116,13,10,32,9,32,13,10,13,10]) = some .ws ∧
+    dispatchRaw [72,111,115,116,58,32,97,13,10,67,111,110,110,101,99,116,105,111,110,58,32,107,101,101,112,45,97,108,105,118,101,44,13,10,32,85,112,103,114,97,100,101,13,10,85,112,103,114,97,100,101,58,32,119,101,98,115,111,99,107,101,116,13,10,32,9,32,13,10,13,10] = dispatchRaw (unfold [72,111,115,116,58,32,97,13,10,67,111,110,110,101,99,116,105,111,110,58,32,107,101,101,112,45,97,108,105,118,101,44,13,10,32,85,112,103,114,97,100,101,13,10,85,112,103,114,97,100,101,58,32,119,101,98,115,111,99,107,101,116,13,10,32,9,32,13,10,13,10]) := by decide
+
+set_option maxRecDepth 1000000 in
+/-- `Content-Type: application/grpc-web\r\n \r\n` ⇒ gRPC-Web folded and unfolded; `Connection: up\r\n grade` ⇒ HTTP both;
+    HTAB fold + two-SP fold + blank trailing fold on Sec-WebSocket-Protocol ⇒ gRPC-WebSocket both -/
+theorem C19_unfold_example_kinds :
+    dispatchWire [72,111,115,116,58,32,97,13,10,67,111,110,116,101,110,116,45,84,121,112,101,58,32,97,112,112,108,105,99,97,116,105,111,110,47,103,114,112,99,45,119,101,98,13,10,32,13,10,13,10] = some .grpcweb ∧ dispatchWire (unfold [72,111,115,116,58,32,97,13,10,67,111,110,116,101,110,116,45,84,121,112,101,58,32,97,112,112,108,105,99,97,116,105,111,110,47,103,114,112,99,45,119,101,98,13,10,32,13,10,13,10]) = some .grpcweb ∧
+    dispatchWire [72,111,115,116,58,32,97,13,10,67,111,110,110,101,99,116,105,111,110,58,32,117,112,13,10,32,103,114,97,100,101,13,10,85,112,103,114,97,100,101,58,32,119,101,98,115,111,99,107,101,116,13,10,13,10] = some .http ∧ dispatchWire (unfold [72,111,115,116,58,32,97,13,10,67,111,110,110,101,99,116,105,111,110,58,32,117,112,13,10,32,103,114,97,100,101,13,10,85,112,103,114,97,100,101,58,32,119,101,98,115,111,99,107,101,116,13,10,13,10]) = some .http ∧
+    dispatchWire [72,111,115,116,58,32,97,13,10,67,111,110,110,101,99,116,105,111,110,58,32,85,112,103,114,97,100,101,13,10,85,112,103,114,97,100,101,58,13,10,9,119,101,98,115,111,99,107,101,116,13,10,83,101,99,45,87,101,98,83,111,99,107,101,116,45,80,114,111,116,111,99,111,108,58,32,120,44,13,10,32,32,103,114,112,99,45,119,101,98,115,111,99,107,101,116,115,32,32,13,10,32,13,10,13,10] = some .grpcws ∧ dispatchWire (unfold [72,111,115,116,58,32,97,13,10,67,111,110,110,101,99,116,105,111,110,58,32,85,112,103,114,97,100,101,13,10,85,112,103,114,97,100,101,58,13,10,9,119,101,98,115,111,99,107,101,116,13,10,83,101,99,45,87,101,98,83,111,99,107,101,116,45,80,114,111,116,111,99,111,108,58,32,120,44,13,10,32,32,103,114,112,99,45,119,101,98,115,111,99,107,101,116,115,32,32,13,10,32,13,10,13,10]) = some .grpcws ∧
+    dispatchRaw [72,111,115,116,58,32,97,13,10,67,111,110,110,101,99,116,105,111,110,58,32,85,112,103,114,97,100,101,13,10,85,112,103,114,97,100,101,58,13,10,9,119,101,98,115,111,99,107,101,116,13,10,83,101,99,45,87,101,98,83,111,99,107,101,116,45,80,114,111,116,111,99,111,108,58,32,120,44,13,10,32,32,103,114,112,99,45,119,101,98,115,111,99,107,101,116,115,32,32,13,10,32,13,10,13,10] = dispatchRaw (unfold [72,111,115,116,58,32,97,13,10,67,111,110,110,101,99,116,105,111,110,58,32,85,112,103,114,97,100,101,13,10,85,112,103,114,97,100,101,58,13,10,9,119,101,98,115,111,99,107,101,116,13,10,83,101,99,45,87,101,98,83,111,99,107,101,116,45,80,114,111,116,111,99,111,108,58,32,120,44,13,10,32,32,103,114,112,99,45,119,101,98,115,111,99,107,101,116,115,32,32,13,10,32,13,10,13,10]) := by decide
